@@ -55,6 +55,7 @@ def gen_args(rng, large=False):
             "path_objects": rng.random() < 0.3,
             "log_debug": rng.random() < 0.25,
             "arg_style": rng.choice(["plain", "plain", "alt", "alt2"]),
+            "strict": rng.choice([None, None, None, None, None, None, "warnings", "fperr"]),
             "r": rng.choice(RADII[:3] if large else RADII),
             "origin": [rng.choice([0.0, 0.3, -0.7, 1.4, 0.5]) for _ in range(3)],
             "bounds": rng.choice(BOUNDS),
@@ -75,6 +76,7 @@ def gen_args(rng, large=False):
         "path_objects": rng.random() < 0.3,
         "log_debug": rng.random() < 0.25,
         "arg_style": rng.choice(["plain", "plain", "alt", "alt2"]),
+        "strict": rng.choice([None, None, None, None, None, None, "warnings", "fperr"]),
         "r": round(rng.uniform(1.0, 4.5 if large else 12.0), 3),
         "origin": [round(rng.uniform(-1.5, 2.5), 4) for _ in range(3)],
         "bounds": [lo, hi],
